@@ -250,3 +250,79 @@ def constraint_program(rng, n_real=None, n_bool=None, n_cons=None, allow_neq=Tru
         lines.append(show(c) + ";")
     rng.shuffle(lines[n_real + n_bool:]) if False else None
     return "\n".join(lines) + "\n", {"reals": reals, "bools": bools, "constraints": cons, "pins": pins, "hidden": hidden}
+
+
+def free_program(rng, core=True):
+    """a constraint network WITHOUT a planted assignment (satisfiable or not - an independent procedure decides)"""
+    n_real, n_bool = rng.randint(1, 4), rng.randint(0, 2)
+    reals = [f"x{i}" for i in range(n_real)]
+    bools = [f"b{i}" for i in range(n_bool)]
+    g = Gen(rng, reals, bools, {}, core=core)
+    cons = []
+    for _ in range(rng.randint(1, 7)):
+        k = rng.random()
+        if k < 0.45:       # simple bound / difference: makes conflicts likely
+            a = ("v", rng.choice(reals))
+            b = ("v", rng.choice(reals)) if rng.random() < 0.4 else ("k", F(rng.randint(-3, 6)))
+            if rng.random() < 0.3:
+                b = ("+", [b, ("k", F(rng.randint(-2, 3)))])
+            cons.append(("rel", rng.choice(["<", "<=", "==", ">=", ">"]), a, b))
+        else:
+            cons.append(g.boolean())
+    meta = {"reals": reals, "bools": bools, "constraints": cons, "pins": {}, "hidden": None}
+    lines = [f"real {x};" for x in reals] + [f"bool {b};" for b in bools] + [show(c) + ";" for c in cons]
+    return "\n".join(lines) + "\n", meta
+
+
+def rename_expr(e, m):
+    if e[0] in ("v", "bv"):
+        return (e[0], m.get(e[1], e[1]))
+    if e[0] in ("k", "t", "f"):
+        return e
+    if e[0] in ("+", "-", "*", "/", "&", "|", "^"):
+        return (e[0], [rename_expr(x, m) for x in e[1]])
+    if e[0] in ("neg", "pos", "!"):
+        return (e[0], rename_expr(e[1], m))
+    if e[0] == "rel":
+        return ("rel", e[1], rename_expr(e[2], m), rename_expr(e[3], m))
+    if e[0] in ("->", "beq", "bne"):
+        return (e[0], rename_expr(e[1], m), rename_expr(e[2], m))
+    raise ValueError(e[0])
+
+
+def variants(rng, meta):
+    """semantically equivalent formulations: (kind, text) - statements reordered, identifiers renamed, tautologies added"""
+    out = []
+    decl = [f"real {x};" for x in meta["reals"]] + [f"bool {b};" for b in meta["bools"]]
+    body = [f"{x} == {show(e)};" for x, e in meta.get("pins", {}).items()] + [show(c) + ";" for c in meta["constraints"]]
+    b2 = body[:]
+    rng.shuffle(b2)
+    d2 = decl[:]
+    rng.shuffle(d2)
+    out.append(("reordered", "\n".join(d2 + b2) + "\n"))
+    names = ["alpha", "k_9", "Zed", "v__", "q7", "w", "tmp_x", "r2d2", "u", "yy"]
+    rng.shuffle(names)
+    m = {v: names[i] for i, v in enumerate(meta["reals"] + meta["bools"])}
+    out.append(("renamed", "\n".join([f"real {m[x]};" for x in meta["reals"]] + [f"bool {m[b]};" for b in meta["bools"]] +
+                                    [f"{m[x]} == {show(e)};" for x, e in meta.get("pins", {}).items()] +
+                                    [show(rename_expr(c, m)) + ";" for c in meta["constraints"]]) + "\n"))
+    tauts = []
+    for _ in range(rng.randint(1, 3)):
+        k = rng.random()
+        x = ("v", rng.choice(meta["reals"]))
+        if k < 0.3:
+            tauts.append(("rel", rng.choice(["<=", ">=", "=="]), x, x))
+        elif k < 0.5:
+            tauts.append(("rel", "<", ("k", F(1)), ("k", F(2))))
+        elif k < 0.75:
+            c = ("k", F(rng.randint(-2, 5)))
+            tauts.append(("|", [("rel", "<=", x, c), ("rel", ">", x, c)]))
+        elif meta["bools"]:
+            b = ("bv", rng.choice(meta["bools"]))
+            tauts.append(("|", [b, ("!", b)]))
+        else:
+            tauts.append(("rel", "<=", ("+", [x, ("k", F(0))]), x))
+    b3 = body + [show(t) + ";" for t in tauts]
+    rng.shuffle(b3)
+    out.append(("tautologies", "\n".join(decl + b3) + "\n"))
+    return out
